@@ -204,6 +204,17 @@ static void run_off(Out& out, Rng& g, const DGroup& G, double d, int join, doubl
                 pt.y = (i128)floor((ay + t * ddy + ddx / len * off) * unit);
                 pts.push_back(pt);
             }
+            // round joins: a ring of probes just inside the radius that must be covered, where a polygonal arc with too few
+            // chords (or a chord spanning too many steps) leaves gaps
+            if (join == 2 && d > 0 && pts.size() < 860) {
+                double ph = (double)g.below(6283) * 0.001, rr = std::max(0.0, (double)rin - 0.5);
+                for (int k = 0; k < 16; k++) {
+                    FPt pt;
+                    pt.x = (i128)floor((ax + rr * cos(ph + 2 * M_PI * k / 16)) * unit);
+                    pt.y = (i128)floor((ay + rr * sin(ph + 2 * M_PI * k / 16)) * unit);
+                    pts.push_back(pt);
+                }
+            }
             // around the corner, where the joins differ
             for (int k = 0; k < 3; k++) {
                 double ang = (double)g.below(6283) * 0.001, rr = D * (0.8 + 0.1 * (double)g.below(12));
@@ -337,8 +348,10 @@ static void gen_case(Out& out, Rng& g) {
     g_rectilinear = false;
     double tol;
     if (join == 2) {
-        static const double T[6] = {3, 6, 12, 32, 64, 1000};
-        tol = T[g.below(6)];
+        // segments per full circle; among them values for which steps-per-corner has a fractional part near one half at the
+        // common corner angles (the number of chords of a corner is ROUNDED, not truncated)
+        static const double T[13] = {3, 6, 8, 11, 12, 15, 16, 19, 23, 24, 32, 64, 1000};
+        tol = T[g.below(13)];
     } else {
         static const double T[5] = {2, 2.5, 3, 5, 10};
         tol = T[g.below(5)];
